@@ -1,0 +1,29 @@
+//go:build verif
+
+package state
+
+import (
+	tmstate "github.com/tendermint/tendermint/proto/tendermint/state"
+	"github.com/tendermint/tendermint/types"
+)
+
+// Thin accessors for the /verif correspondence harness (build tag verif only).
+
+// VerifValSetCheckpointInterval exposes valSetCheckpointInterval.
+const VerifValSetCheckpointInterval = valSetCheckpointInterval
+
+// VerifUpdateState calls updateState.
+func VerifUpdateState(
+	state State,
+	blockID types.BlockID,
+	header *types.Header,
+	abciResponses *tmstate.ABCIResponses,
+	validatorUpdates []*types.Validator,
+) (State, error) {
+	return updateState(state, blockID, header, abciResponses, validatorUpdates)
+}
+
+// VerifValidatorsKey calls calcValidatorsKey.
+func VerifValidatorsKey(height int64) []byte {
+	return calcValidatorsKey(height)
+}
